@@ -112,6 +112,13 @@ impl PaddingFactory {
                     continue;
                 }
 
+                // A record size has to fit the 16-bit length field of one padding frame;
+                // an entry that cannot be honoured is ignored like other invalid bounds
+                // (it used to truncate the frame header or wrap to a negative size).
+                if min_val > u16::MAX as i64 || max_val > u16::MAX as i64 {
+                    continue;
+                }
+
                 let (min_val, max_val) = (min_val.min(max_val), min_val.max(max_val));
 
                 if min_val == max_val {
